@@ -135,6 +135,14 @@ impl OodFrame {
         } else {
             None
         };
+        if reader.has_more_bytes() {
+            return Err(DeserializationError::UnconsumedBytes);
+        }
+        if lagrange_kernel_frame.is_some() && aux_trace_width == 0 {
+            return Err(DeserializationError::InvalidValue(
+                "Lagrange kernel frame provided for a trace without an auxiliary segment".into(),
+            ));
+        }
 
         // if there is a Lagrange kernel, we treat its associated entries separately above
         let aux_trace_width = aux_trace_width - (lagrange_kernel_frame.is_some() as usize);
@@ -144,6 +152,11 @@ impl OodFrame {
         let (current_row, next_row) = {
             let mut reader = SliceReader::new(&self.trace_states);
             let frame_size = reader.read_u8()? as usize;
+            if frame_size != 2 {
+                return Err(DeserializationError::InvalidValue(format!(
+                    "trace evaluation frame must consist of 2 rows, but was {frame_size}"
+                )));
+            }
             let trace = reader.read_many((main_trace_width + aux_trace_width) * frame_size)?;
 
             if reader.has_more_bytes() {
